@@ -14,6 +14,7 @@ import (
 	"bytes"
 	"context"
 	"fmt"
+	"io"
 	"net"
 	"net/netip"
 	"strings"
@@ -28,26 +29,65 @@ import (
 	"github.com/osrg/gobgp/v4/pkg/packet/bgp"
 )
 
+// the in-memory conn of a session: TCP addresses for stateChange, the peer's byte stream for the
+// receive loop, and a record of everything gobgp writes (the NOTIFICATION on the wire)
 type c06Conn struct {
 	net.Conn
-	r *bytes.Reader
-}
-
-func (c *c06Conn) Read(b []byte) (int, error) { return c.r.Read(b) }
-func (c *c06Conn) Close() error               { return nil }
-
-// the conn the fsm believes it is established on (stateChange reads its addresses)
-type c06AddrConn struct {
-	net.Conn
+	r      *bytes.Reader
 	remote netip.Addr
+	mu     sync.Mutex
+	wrote  []byte
 }
 
-func (c *c06AddrConn) Close() error { return nil }
-func (c *c06AddrConn) RemoteAddr() net.Addr {
+func (c *c06Conn) Read(b []byte) (int, error) {
+	if c.r == nil {
+		return 0, io.EOF
+	}
+	return c.r.Read(b)
+}
+func (c *c06Conn) Write(b []byte) (int, error) {
+	c.mu.Lock()
+	c.wrote = append(c.wrote, b...)
+	c.mu.Unlock()
+	return len(b), nil
+}
+func (c *c06Conn) Close() error                       { return nil }
+func (c *c06Conn) SetDeadline(time.Time) error      { return nil }
+func (c *c06Conn) SetReadDeadline(time.Time) error  { return nil }
+func (c *c06Conn) SetWriteDeadline(time.Time) error { return nil }
+func (c *c06Conn) RemoteAddr() net.Addr {
 	return &net.TCPAddr{IP: net.IP(c.remote.AsSlice()), Port: 179}
 }
-func (c *c06AddrConn) LocalAddr() net.Addr {
+func (c *c06Conn) LocalAddr() net.Addr {
 	return &net.TCPAddr{IP: net.IPv4(10, 0, 0, 254).To4(), Port: 40000}
+}
+
+// the NOTIFICATION gobgp put on the wire, if any (messages of other types are skipped)
+func (c *c06Conn) notification() *bgp.BGPNotification {
+	c.mu.Lock()
+	defer c.mu.Unlock()
+	b := c.wrote
+	for len(b) >= 19 {
+		l := int(b[16])<<8 | int(b[17])
+		if l < 19 || l > len(b) {
+			return nil
+		}
+		if b[18] == bgp.BGP_MSG_NOTIFICATION && l >= 21 {
+			return &bgp.BGPNotification{ErrorCode: b[19], ErrorSubcode: b[20], Data: append([]byte{}, b[21:l]...)}
+		}
+		b = b[l:]
+	}
+	return nil
+}
+
+// session runs the REAL fsmHandler.established() — send and receive loops, hold timer, the
+// NOTIFICATION conversion and fsm.sendNotification — over the given byte stream until it leaves the
+// state (NOTIFICATION sent, or the peer's stream ended).  Returns the NOTIFICATION seen on the wire.
+func (c *c06Session) session(stream []byte) *bgp.BGPNotification {
+	conn := &c06Conn{r: bytes.NewReader(stream), remote: c.addr}
+	c.peer.fsm.conn = conn
+	c.h.established(context.Background())
+	return conn.notification()
 }
 
 // establish brings the neighbour's fsm to ESTABLISHED the way fsmHandler.loop does: the neighbour's
@@ -122,12 +162,40 @@ func (c *c06Session) establishShape(t *testing.T, as uint32, revised, fourOctet,
 	f.lock.Lock()
 	conf := f.pConf.ReadCopy()
 	conf.ErrorHandling.Config.TreatAsWithdraw = revised
+	gr := c.gr
+	if shape == "no-optparams" {
+		gr = 0
+	}
+	// graceful restart and RFC 8538 notification support are configured locally whenever the peer offers them
+	conf.GracefulRestart.Config.Enabled = gr > 0
+	conf.GracefulRestart.Config.NotificationEnabled = gr > 0
+	for i := range conf.AfiSafis {
+		on := (conf.AfiSafis[i].State.Family == bgp.RF_IPv4_UC && c.ap4) || (conf.AfiSafis[i].State.Family == bgp.RF_IPv6_UC && c.ap6)
+		conf.AfiSafis[i].AddPaths.Config.Receive = on
+		conf.AfiSafis[i].AddPaths.State.Receive = on
+	}
 	f.pConf.Update(&conf)
 	f.lock.Unlock()
 	if shape == "no-optparams" && fourOctet {
 		shape = "caps-without-mp"
 	}
 	params, v4c, v6c := c06Open(shape, as, fourOctet, v6)
+	if c.ap4 || c.ap6 {
+		// the peer offers to SEND several paths per prefix for the family
+		var tuples []*bgp.CapAddPathTuple
+		if c.ap4 {
+			tuples = append(tuples, bgp.NewCapAddPathTuple(bgp.RF_IPv4_UC, bgp.BGP_ADD_PATH_SEND))
+		}
+		if c.ap6 {
+			tuples = append(tuples, bgp.NewCapAddPathTuple(bgp.RF_IPv6_UC, bgp.BGP_ADD_PATH_SEND))
+		}
+		params = append(params, bgp.NewOptionParameterCapability([]bgp.ParameterCapabilityInterface{bgp.NewCapAddPath(tuples)}))
+	}
+	if gr > 0 {
+		// GRACEFUL_RESTART capability, without (1) or with (2) the N bit of RFC 8538
+		params = append(params, bgp.NewOptionParameterCapability([]bgp.ParameterCapabilityInterface{
+			bgp.NewCapGracefulRestart(false, gr == 2, 120, []*bgp.CapGracefulRestartTuple{bgp.NewCapGracefulRestartTuple(bgp.RF_IPv4_UC, true)})}))
+	}
 	open, err := bgp.NewBGPOpenMessage(uint16(as), 90, c.rid, params)
 	if err != nil {
 		t.Fatal(err)
@@ -135,7 +203,7 @@ func (c *c06Session) establishShape(t *testing.T, as uint32, revised, fourOctet,
 	defer func() { c.sessions++ }()
 	c.lastV4, c.lastV6 = v4c, v6c
 	f.recvOpen = open
-	f.conn = &c06AddrConn{remote: c.addr}
+	f.conn = &c06Conn{remote: c.addr}
 	f.stateChange(bgp.BGP_FSM_ESTABLISHED, newfsmStateReason(fsmOpenMsgNegotiated, nil, nil))
 	f.state.Store(bgp.BGP_FSM_ESTABLISHED)
 	// ... and what handleFSMMessage stores when the session comes up
@@ -162,6 +230,8 @@ type c06Session struct {
 	rid  netip.Addr
 	sessions int
 	lastV4, lastV6 bool
+	gr int // GRACEFUL_RESTART capability in the next OPEN: 0 absent, 1 present, 2 present with the N bit
+	ap4, ap6 bool // ADD-PATH receive for IPv4 / IPv6 unicast in the next session (configured locally, SEND offered by the peer)
 }
 
 func c06AttrList(l []bgp.PathAttributeInterface) string {
@@ -191,18 +261,7 @@ func (c *c06Session) feed(bodies ...[]byte) *bgp.BGPNotification {
 		stream = append(stream, c06Frame(b)...)
 	}
 	c.got, c.attr = nil, nil
-	conn := &c06Conn{r: bytes.NewReader(stream)}
-	holdCh := make(chan struct{}, 2)
-	reasonCh := make(chan fsmStateReason, 4)
-	wg := &sync.WaitGroup{}
-	wg.Add(1)
-	c.h.recvMessageloop(context.Background(), conn, holdCh, reasonCh, wg)
-	var n *bgp.BGPNotification
-	select {
-	case m := <-c.h.fsm.notification:
-		n = m.Body.(*bgp.BGPNotification)
-	default:
-	}
+	n := c.session(stream)
 	for _, f := range c.got {
 		// as the session goroutine's callback does (takes the server's shared read lock itself)
 		c.s.handleFSMMessage(c.peer, f)
@@ -218,18 +277,7 @@ func (c *c06Session) feedRaw(bodies ...[]byte) *bgp.BGPNotification {
 		stream = append(stream, c06Frame(b)...)
 	}
 	c.got, c.attr = nil, nil
-	conn := &c06Conn{r: bytes.NewReader(stream)}
-	holdCh := make(chan struct{}, 2)
-	reasonCh := make(chan fsmStateReason, 4)
-	wg := &sync.WaitGroup{}
-	wg.Add(1)
-	c.h.recvMessageloop(context.Background(), conn, holdCh, reasonCh, wg)
-	select {
-	case m := <-c.h.fsm.notification:
-		return m.Body.(*bgp.BGPNotification)
-	default:
-	}
-	return nil
+	return c.session(stream)
 }
 
 // describe: the canonical answer for the i-th delivered message (same format as the `act` lines)
@@ -252,16 +300,22 @@ func (c *c06Session) describe(i int) (string, int) {
 	}
 	got += fmt.Sprintf(" wd=%d nlri=%d", len(u.WithdrawnRoutes), len(u.NLRI))
 	ann, wdn := 0, 0
+	var ps []string
 	for _, p := range table.ProcessMessage(fm.MsgData.(*bgp.BGPMessage), c.peer.peerInfo.Load(), fm.timestamp, fm.handling == bgp.ERROR_HANDLING_TREAT_AS_WITHDRAW) {
 		switch {
 		case p.IsEOR():
 		case p.IsWithdraw:
 			wdn++
+			ps = append(ps, fmt.Sprintf("w%d", p.RemoteID()))
 		default:
 			ann++
+			ps = append(ps, fmt.Sprintf("a%d", p.RemoteID()))
 		}
 	}
-	return got + fmt.Sprintf(" ann=%d wdn=%d", ann, wdn), rank
+	if len(ps) == 0 {
+		ps = []string{"-"}
+	}
+	return got + fmt.Sprintf(" ann=%d wdn=%d p=%s", ann, wdn, strings.Join(ps, ".")), rank
 }
 
 // state of the given IPv4 prefixes in the neighbour's Adj-RIB-In: "absent" or the attribute types carried
@@ -335,8 +389,8 @@ func (c *c06Session) drop() {
 const c06Marker = 0xC06C06C0
 
 // a clean announcement of the given IPv4 prefixes, recognisable by its MED
-func c06Announce(peer int, use2 bool, nlri [][]byte, nlri6 [][]byte) []byte {
-	m := &c06Msg{peer: peer, use2: use2, nlri: nlri}
+func c06Announce(peer int, use2 bool, nlri [][]byte, ids4 []uint32, nlri6 [][]byte, ids6 []uint32, ap4, ap6 bool) []byte {
+	m := &c06Msg{peer: peer, use2: use2, nlri: nlri, nlriID: ids4, ap4: ap4, ap6: ap6}
 	as := []byte{2, 1, 0, 0, 0xfc, 0x01}
 	if peer == 2 {
 		as[0] = 3
@@ -353,13 +407,19 @@ func c06Announce(peer int, use2 bool, nlri [][]byte, nlri6 [][]byte) []byte {
 	}
 	if len(nlri6) > 0 {
 		v := []byte{0, 2, 1, 16, 0x20, 0x01, 0x0d, 0xb8, 0, 0, 0, 0, 0, 0, 0, 0, 0, 0, 0, 0x77, 0}
-		for _, p := range nlri6 {
+		for i, p := range nlri6 {
+			if ap6 {
+				id := ids6[i]
+				v = append(v, byte(id>>24), byte(id>>16), byte(id>>8), byte(id))
+			}
 			v = append(v, p...)
 		}
 		m.attrs = append(m.attrs, c06Attr{typ: 14, flags: 0x80, val: v, decl: -1})
 	}
 	return m.body()
 }
+
+func c06Key(prefix string, id uint32) string { return fmt.Sprintf("%s#%d", prefix, id) }
 
 func c06PrefixKey6(b []byte) string {
 	var a [16]byte
@@ -518,6 +578,9 @@ func TestVerifC06Server(t *testing.T) {
 
 	floating := false // next case on the neighbour whose peer AS is not configured
 	shapeOverride := "mp-explicit" // shape of the OPEN of the session under test ("" = random)
+	grOverride := 0                // GRACEFUL_RESTART capability of that OPEN (-1 = random)
+	apOverride := 0                // ADD-PATH: 0 off, 1 IPv4, 2 IPv6, 3 both, -1 random
+	detail0 := ""
 	runCase := func(m *c06Msg, revised bool, v6 bool, label string) {
 		c := sess[m.peer]
 		as := peerAS[m.peer]
@@ -529,6 +592,21 @@ func TestVerifC06Server(t *testing.T) {
 		}
 		f := c.peer.fsm
 		c.drop()
+		if apOverride < 0 && r.chance(25) || apOverride > 0 {
+			// the case runs on sessions with ADD-PATH receive for IPv4 and / or IPv6 unicast: every prefix of
+			// the message carries a path identifier (zero or not), which is part of the route key
+			k := apOverride
+			if k <= 0 {
+				k = 1 + r.intn(3)
+			}
+			c06AddPathify(r, m, k != 2, k != 1)
+			if m.ap6 {
+				v6 = true
+			}
+			detail0 = fmt.Sprintf("ADD-PATH receive IPv4 %v IPv6 %v", m.ap4, m.ap6)
+		} else {
+			detail0 = "no ADD-PATH"
+		}
 		body := m.body()
 		hx := m.hex()
 		detail := map[string]any{"body": hx, "faults": m.faultNames(), "peer": m.peer, "revised": revised, "use2": m.use2, "v6": v6,
@@ -548,12 +626,57 @@ func TestVerifC06Server(t *testing.T) {
 				}
 			}
 		}
+		// the route KEY: (prefix, path identifier); identifiers are 0 without ADD-PATH
+		idOf := func(l []uint32, i int) uint32 {
+			if i < len(l) {
+				return l[i]
+			}
+			return 0
+		}
+		var reachID, unreachID []uint32
+		for i := range m.attrs {
+			a := &m.attrs[i]
+			if a.tag == "" && m.count(a.typ) == 1 {
+				if a.typ == 14 {
+					reachID = c06MpIDs(a)
+				} else if a.typ == 15 {
+					unreachID = c06MpIDs(a)
+				}
+			}
+		}
+		bystanders := []string{c06Key(c06PrefixKey(c06Bystander4), 0), c06Key(c06PrefixKey6(c06Bystander6), 0)}
+		c.ap4, c.ap6 = m.ap4, m.ap6
 		if pre {
-			// a first session of the neighbour: revised handling on, IPv6 negotiated, same AS width
+			// a first session of the neighbour: revised handling on, IPv6 negotiated, same AS width, same ADD-PATH
+			c.gr = 0
 			c.establish(t, as, true, !m.use2, true)
 			n4 := append(append([][]byte{c06Bystander4}, m.nlri...), m.wd...)
+			i4 := []uint32{0}
+			for i := range m.nlri {
+				i4 = append(i4, idOf(m.nlriID, i))
+			}
+			for i := range m.wd {
+				i4 = append(i4, idOf(m.wdID, i))
+			}
 			n6 := append(append([][]byte{c06Bystander6}, reach6...), unreach6...)
-			if n := c.feed(c06Announce(m.peer, m.use2, n4, n6)); n != nil {
+			i6 := append(append([]uint32{0}, reachID...), unreachID...)
+			// with ADD-PATH every named prefix is ALSO installed under another identifier: those routes are
+			// not named by the UPDATE under test and must survive it
+			if m.ap4 {
+				for i, p := range n4[1:] {
+					n4 = append(n4, p)
+					i4 = append(i4, i4[1+i]+1000)
+					bystanders = append(bystanders, c06Key(c06PrefixKey(p), i4[1+i]+1000))
+				}
+			}
+			if m.ap6 {
+				for i, p := range n6[1:] {
+					n6 = append(n6, p)
+					i6 = append(i6, i6[1+i]+1000)
+					bystanders = append(bystanders, c06Key(c06PrefixKey6(p), i6[1+i]+1000))
+				}
+			}
+			if n := c.feed(c06Announce(m.peer, m.use2, n4, i4, n6, i6, m.ap4, m.ap6)); n != nil {
 				detail["notification"] = fmt.Sprintf("%d/%d", n.ErrorCode, n.ErrorSubcode)
 				o.fail("wellformed-penalised:clean-announcement-reset", detail)
 				return
@@ -570,6 +693,16 @@ func TestVerifC06Server(t *testing.T) {
 		if shape == "" {
 			shape = c06OpenShapes[r.intn(len(c06OpenShapes))]
 		}
+		if m.ap4 || m.ap6 {
+			shape = []string{"mp-explicit", "mp-twice", "split-optparams"}[r.intn(3)]
+		}
+		detail["add_path"] = detail0
+		c.gr = grOverride
+		if c.gr < 0 {
+			c.gr = r.intn(3)
+		}
+		o.stat(fmt.Sprintf("open_graceful_restart_%d", c.gr), 1)
+		detail["graceful_restart_capability"] = []string{"absent", "present", "present with N bit"}[c.gr]
 		if shape == "no-optparams" && !m.use2 {
 			shape = "caps-without-mp"
 		}
@@ -592,8 +725,12 @@ func TestVerifC06Server(t *testing.T) {
 			return false
 		}()
 		cfg := fmt.Sprintf("%d %d %d 0 %d %d", c06B(revised), c06B(m.peer != 1), c06B(m.peer == 2), c06B(v4), c06B(v6))
+		arg := fmt.Sprintf("%d %s", c06B(m.use2), hx)
+		if m.ap4 || m.ap6 {
+			arg = fmt.Sprintf("%d %d %d %s", c06B(m.use2), c06B(m.ap4), c06B(m.ap6), hx)
+		}
 		if panicked {
-			o.ask("panic", "act %s %d %s", cfg, c06B(m.use2), hx)
+			o.ask("panic", "act %s %s", cfg, arg)
 			o.fail("receive-path-panic", detail)
 			return
 		}
@@ -621,20 +758,27 @@ func TestVerifC06Server(t *testing.T) {
 			got += fmt.Sprintf(" wd=%d nlri=%d", len(u.WithdrawnRoutes), len(u.NLRI))
 			// what table.ProcessMessage makes of the delivered message (same call as peer.handleUpdate)
 			ann, wdn := 0, 0
+			var ps []string
 			for _, p := range table.ProcessMessage(fm.MsgData.(*bgp.BGPMessage), c.peer.peerInfo.Load(), fm.timestamp, fm.handling == bgp.ERROR_HANDLING_TREAT_AS_WITHDRAW) {
 				switch {
 				case p.IsEOR():
 				case p.IsWithdraw:
 					wdn++
+					ps = append(ps, fmt.Sprintf("w%d", p.RemoteID()))
 				default:
 					ann++
+					ps = append(ps, fmt.Sprintf("a%d", p.RemoteID()))
 				}
 			}
-			got += fmt.Sprintf(" ann=%d wdn=%d", ann, wdn)
+			if len(ps) == 0 {
+				ps = []string{"-"}
+			}
+			// ... path by path: withdrawal or announcement, and the path identifier it carries (the route key)
+			got += fmt.Sprintf(" ann=%d wdn=%d p=%s", ann, wdn, strings.Join(ps, "."))
 		default:
 			got = fmt.Sprintf("nothing-delivered-%d", len(c.got))
 		}
-		o.ask(got, "act %s %d %s", cfg, c06B(m.use2), hx)
+		o.ask(got, "act %s %s", cfg, arg)
 		o.stat("action_"+rankName[rank], 1)
 		o.stat(label, 1)
 		detail["reaction"] = got
@@ -646,6 +790,22 @@ func TestVerifC06Server(t *testing.T) {
 		}
 		for _, p := range glob {
 			c06CheckRoute(o, "loc-rib", p, m, detail)
+		}
+		// the NOTIFICATION on the wire carries the RFC 4271 code/subcode of the error, whatever was negotiated
+		// (judged for a single fault whose subcode the RFC fixes, families carried, fields not shifted)
+		if notif != nil && len(m.faults) == 1 && !m.framing && v4 && (v6 || (m.count(14) == 0 && m.count(15) == 0)) && m.count(18) == 0 {
+			nm := m.faults[0].name
+			if k := strings.IndexByte(nm, ':'); k >= 0 {
+				nm = nm[:k]
+			}
+			want := map[string][2]uint8{"unknown-wellknown": {3, 2}, "dup-mp": {3, 1}, "missing": {3, 3}, "flags": {3, 4},
+				"origin-value": {3, 6}, "nexthop-value": {3, 8}, "aspath-segment": {3, 11}, "aspath-confed-first": {3, 11},
+				"aspath-confed-middle": {3, 11}, "aspath-confed-last": {3, 11}, "aspath-confed-peer-head": {3, 11}, "aspath-confed-peer-empty": {3, 11}}
+			if w, ok := want[nm]; ok && (notif.ErrorCode != w[0] || notif.ErrorSubcode != w[1]) {
+				detail["want_notification"] = fmt.Sprintf("%d/%d", w[0], w[1])
+				o.fail("notification-on-wire-has-wrong-code", detail)
+				delete(detail, "want_notification")
+			}
 		}
 		usesV4 := len(m.nlri) > 0 || len(m.wd) > 0
 		usesV6 := m.count(14) > 0 || m.count(15) > 0
@@ -706,17 +866,23 @@ func TestVerifC06Server(t *testing.T) {
 		if pre {
 			// the containment rule itself, prefix by prefix, in Adj-RIB-In and in Loc-RIB
 			named := map[string]string{} // key -> "ann" | "wd"
-			for _, p := range m.nlri {
-				named[c06PrefixKey(p)] = "ann"
+			for i, p := range m.nlri {
+				named[c06Key(c06PrefixKey(p), idOf(m.nlriID, i))] = "ann"
 			}
-			for _, p := range reach6 {
-				named[c06PrefixKey6(p)] = "ann"
+			for i, p := range reach6 {
+				named[c06Key(c06PrefixKey6(p), idOf(reachID, i))] = "ann"
 			}
-			for _, p := range m.wd {
-				named[c06PrefixKey(p)] = "wd" // named in both: the withdrawal is processed last
+			for i, p := range m.wd {
+				named[c06Key(c06PrefixKey(p), idOf(m.wdID, i))] = "wd" // named in both: the withdrawal is processed last
 			}
-			for _, p := range unreach6 {
-				named[c06PrefixKey6(p)] = "wd"
+			for i, p := range unreach6 {
+				named[c06Key(c06PrefixKey6(p), idOf(unreachID, i))] = "wd"
+			}
+			for _, b := range bystanders {
+				delete(named, b) // (cannot happen: identifiers differ by 1000)
+			}
+			if m.ap4 || m.ap6 {
+				o.stat("addpath_case_"+rankName[rank], 1)
 			}
 			if len(m.wd)+len(unreach6) > 0 && len(m.nlri)+len(reach6) > 0 {
 				o.stat("announce_and_withdraw_"+rankName[rank], 1)
@@ -729,10 +895,10 @@ func TestVerifC06Server(t *testing.T) {
 				have := map[string]*table.Path{}
 				for _, p := range set {
 					if !p.IsWithdraw {
-						have[p.GetNlri().String()] = p
+						have[c06Key(p.GetNlri().String(), p.RemoteID())] = p
 					}
 				}
-				for _, k := range []string{c06PrefixKey(c06Bystander4), c06PrefixKey6(c06Bystander6)} {
+				for _, k := range bystanders {
 					if p := have[k]; p == nil || !c06IsMarked(p) {
 						detail["prefix"] = k
 						o.fail("unrelated-route-of-the-peer-touched:"+where, detail)
@@ -904,6 +1070,56 @@ func TestVerifC06Server(t *testing.T) {
 			}
 		}
 		shapeOverride = "mp-explicit"
+		// seed C06-Q class: session-reset class errors whose subcode is 1, 2 or 3, on sessions with the
+		// GRACEFUL_RESTART capability without / with the N bit: the wire still says 3/2, 3/1, 3/3
+		for g := 0; g <= 2; g++ {
+			grOverride = g
+			mk := func(k byte) *c06Msg {
+				m := &c06Msg{peer: 0, nlri: [][]byte{{24, 10, 95, k}}}
+				m.attrs = []c06Attr{
+					{typ: 1, flags: 0x40, val: []byte{0}, decl: -1},
+					{typ: 2, flags: 0x40, val: []byte{2, 1, 0, 0, 0xfd, 0xe9}, decl: -1},
+					{typ: 3, flags: 0x40, val: []byte{10, 0, 0, 1}, decl: -1},
+				}
+				return m
+			}
+			m1 := mk(byte(1 + g))
+			m1.attrs = append(m1.attrs, c06Attr{typ: 99, flags: 0x40, val: []byte{1}, decl: -1, tag: "unknown-wk"})
+			m1.faults = []c06Fault{{"unknown-wellknown", c06Reset, 99}}
+			runCase(m1, true, true, "corpus")
+			m2 := mk(byte(11 + g))
+			m2.attrs = m2.attrs[:2]
+			m2.faults = []c06Fault{{"missing:3", c06Withdraw, 3}}
+			runCase(m2, false, true, "corpus")
+			m3 := mk(byte(21 + g))
+			mp := c06Attr{typ: 15, flags: 0x80, val: []byte{0, 2, 1, 48, 0x20, 0x01, 0x0d, 0xb8, 0xee, 0xee}, decl: -1}
+			m3.attrs = append(m3.attrs, mp, mp)
+			m3.faults = []c06Fault{{"dup-mp:15", c06Reset, 15}}
+			runCase(m3, true, true, "corpus")
+		}
+		grOverride = 0
+		// seed C06-R class: treat-as-withdraw on ADD-PATH sessions, NLRI in the NLRI field and in MP_REACH,
+		// path identifier non-zero and zero, the routes installed before under the same and another identifier
+		for ap := 1; ap <= 3; ap++ {
+			for k, origin := range [][]byte{{9}, {0, 0}} {
+				m := &c06Msg{peer: 0, nlri: [][]byte{{24, 10, 94, byte(ap*4 + k)}}}
+				m.attrs = []c06Attr{
+					{typ: 1, flags: 0x40, val: origin, decl: -1, tag: "value"},
+					{typ: 2, flags: 0x40, val: []byte{2, 1, 0, 0, 0xfd, 0xe9}, decl: -1},
+					{typ: 3, flags: 0x40, val: []byte{10, 0, 0, 1}, decl: -1},
+					{typ: 14, flags: 0x80, decl: -1, val: append([]byte{0, 2, 1, 16, 0x20, 0x01, 0x0d, 0xb8, 0, 0, 0, 0, 0, 0, 0, 0, 0, 0, 0, 9, 0},
+						48, 0x20, 0x01, 0x0d, 0xb8, 0xee, byte(ap*4+k), 64, 0x20, 0x01, 0x0d, 0xb8, 0xee, byte(ap*4+k), 0, 1)},
+				}
+				m.faults = []c06Fault{{"origin-value", c06Withdraw, 1}}
+				if k == 1 {
+					m.attrs[0].tag = "len"
+					m.faults = []c06Fault{{"len:1", c06Withdraw, 1}}
+				}
+				apOverride = ap
+				runCase(m, true, true, "corpus")
+			}
+		}
+		apOverride = 0
 	}
 
 	n := 2500
@@ -930,10 +1146,10 @@ func TestVerifC06Server(t *testing.T) {
 			o.stat("fault_"+nm, 1)
 		}
 		floating = r.chance(30)
-		shapeOverride = ""
+		shapeOverride, grOverride, apOverride = "", -1, -1
 		runCase(m, revised, !r.chance(10), "peer_"+[]string{"ebgp", "ibgp", "confed"}[peer])
 		floating = false
-		shapeOverride = "mp-explicit"
+		shapeOverride, grOverride, apOverride = "mp-explicit", 0, 0
 	}
 
 	// ------------------------------------------------------------------------------------------
@@ -1079,6 +1295,8 @@ func TestVerifC06Server(t *testing.T) {
 		}
 		_, _, v6 = c06Open(shape, as, !base.use2, v6)
 		o.stat("seq_open_shape_"+shape, 1)
+		c.gr = r.intn(3)
+		c.ap4, c.ap6 = false, false
 		cfg := fmt.Sprintf("%d %d %d 0 1 %d", c06B(revised), c06B(peer != 1), c06B(peer == 2), c06B(v6))
 		// (1) reference: every message alone, first on a fresh session with the same parameters
 		type obs struct {
